@@ -48,6 +48,7 @@ EXTRA={
             '//@ ensures internal [C04] stored: !wrongType ==> allsel(i, 0, len(fieldNames), m.vdom[fieldNames[i]])',
             '//@ ensures [C04] options.seen: gHashOptions == options',
             '//@ requires [C13] samelen: len(values) >= len(fieldNames)'],
+ 'getKey': ['//@ ensures free strsize: len(val) <= 536870912'],
  'setRange': ['//@ requires [C13,C02] offset.range: 0 <= offset && offset <= 536870912 && len(substring) <= 536870912 - offset'],
  'setHashTableFields': ['//@ requires [C13] samelen: len(values) >= len(fieldNames)'],
  'deleteHashTableFields': ['//@ loop "for _, fieldName := range fieldNames" invariant [C04] gone: allsel(i, 0, ri1, !m.vdom[fieldNames[i]])',
@@ -145,6 +146,23 @@ EXTRA={
             '//@ loop "for iter := s1.createIterator(); iter.next();" invariant [C05] fresh: d != nil && d.scratch && !wrongType',
             '//@ loop "for i := 1; i < len(sets); i++" invariant [C05] operands: forall r *redisDict :: !r.scratch ==> r.vdom == old(r.vdom) && r.vval == old(r.vval) && r.count == old(r.count)',
             '//@ loop "for i := 1; i < len(sets); i++" invariant [C05] fresh: d != nil && d.scratch && !wrongType'],
+ 'setKeys': ['//@ requires [C13] samelen: len(values) >= len(keys)',
+            '//@ use dataStore.newStoreKeyUnlocked.others',
+            '//@ loop "for _, keyName := range keys" invariant [C02] nomut: !mutated && flagHasOne(options, SET_NOT_EXIST)',
+            '//@ loop "for idx, keyName := range keys" invariant [C02] stored: allsel(i, 0, ri2, dsc.ds.data.vdom[keys[i]])',
+            '//@ loop "for idx, keyName := range keys" invariant [C02] reply: result.data != respInt(0)',
+            '//@ ensures internal [C02] msetnx.none: result.data == respInt(0) ==> !mutated && flagHasOne(options, SET_NOT_EXIST)',
+            '//@ ghostentry gSawExisting = false',
+            '//@ ghostafter "_, exists := dsc.getKeyObjectUnlocked(keyName)" : if exists : gSawExisting = true',
+            '//@ loop "for _, keyName := range keys" invariant [C02] none.yet: !gSawExisting',
+            '//@ ensures [C02] msetnx.refused: flagHasOne(options, SET_NOT_EXIST) && gSawExisting ==> result.data == respInt(0)',
+            '//@ ensures [C02] msetnx.accepted: flagHasOne(options, SET_NOT_EXIST) && !gSawExisting ==> result.data == respInt(1)',
+            '//@ ensures internal [C02] all.stored: result.data != respInt(0) ==> allsel(i, 0, len(keys), dsc.ds.data.vdom[keys[i]])'],
+ 'setKey': ['//@ ensures internal [C02] nx.kept: exists && flagHasOne(options, SET_NOT_EXIST) ==> !mutated',
+            '//@ ensures internal [C02] xx.missing: !exists && flagHasOne(options, SET_EXISTS) ==> !mutated && val.data == nil',
+            '//@ ensures internal [C02] get.old: exists && flagHasOne(options, bitflags(SET_GET)) && valid != VALUE_WRONG_TYPE ==> istype(val.data, respBulkString)',
+            '//@ ensures internal [C02] stored: mutated ==> dsc.ds.data.vdom[keyName] && istype(dsc.ds.data.vval[keyName], *storeKey) && unbox(dsc.ds.data.vval[keyName], *storeKey) == newSk && flagHasOne(newSk.flags, FLAG_KEY_TYPE_STRING) && newSk.expiresAt == ite(exists && flagHasOne(options, SET_KEEP_TTL), old(oldSk.expiresAt), expiration)',
+            '//@ ensures internal [C02] value: mutated && !flagHasOne(options, SET_APPEND) ==> istype(newSk.payload, []byte) && len(unbox(newSk.payload, []byte)) == len(str)'],
  'dictScanUnlocked': ['//@ callback isMatch','//@ pure','//@ endcallback'],
  'changeBits': ['//@ requires len(srcKeyNames) >= 1','//@ loop 1 invariant len(values) == ri1','//@ loop 2 invariant ri2 > 0 ==> resultBytes != nil'],
 }
